@@ -73,6 +73,189 @@ func refine(op token.Token, xIsA bool, val bool) rel {
 	return r
 }
 
+// cmpOutcome: one way a path can be taken — the orderings of (i-key, j-key) it is
+// compatible with, and the direction it established (-1 unknown, 0 asc, 1 desc).
+type cmpOutcome struct {
+	r    rel
+	desc int
+}
+
+// cmpTriple: a helper's path — its outcome and the sign of the int it returns
+// (relLT = negative, relEQ = zero, relGT = positive).
+type cmpTriple struct {
+	cmpOutcome
+	sign rel
+}
+
+func mirror(r rel) rel {
+	var m rel
+	if r&relLT != 0 {
+		m |= relGT
+	}
+	if r&relGT != 0 {
+		m |= relLT
+	}
+	return m | r&relEQ
+}
+
+// evalCmpAtoms folds the branch conditions of a path into outcomes. Comparisons
+// between an i-side and a j-side value refine the ordering; a test of the
+// Descending flag fixes the direction; the int result of core.compare — or of a
+// module helper that is summarised path by path (cmpHelperSummary) — tested
+// against 0 refines through the helper's own paths.
+func evalCmpAtoms(c *Ctx, p pathAtoms, side func(ssa.Value) byte, depth int) []cmpOutcome {
+	outs := []cmpOutcome{{relAll, -1}}
+	helperAllowed := map[*ssa.Call]rel{}
+	var helperCalls []*ssa.Call
+	for _, a := range p.atoms {
+		if isFieldLoad(a.v, "z/core.OrderBy.Descending") || isFieldValue(a.v, "Descending") {
+			for i := range outs {
+				if a.pos {
+					outs[i].desc = 1
+				} else {
+					outs[i].desc = 0
+				}
+			}
+			continue
+		}
+		b, ok := a.v.(*ssa.BinOp)
+		if !ok {
+			continue
+		}
+		x, y := p.resolve(strip(b.X)), p.resolve(strip(b.Y))
+		if call, isC := x.(*ssa.Call); isC {
+			if k, isK := constInt(y); isK && k == 0 {
+				if isCall(call, "z/core.compare") {
+					cx, cy := p.resolve(strip(call.Call.Args[0])), p.resolve(strip(call.Call.Args[1]))
+					sx, sy := side(cx), side(cy)
+					if sx != 0 && sy != 0 && sx != sy {
+						for i := range outs {
+							outs[i].r &= refine(b.Op, sx == 'A', a.pos)
+						}
+					}
+					continue
+				}
+				if h := call.Call.StaticCallee(); h != nil && inModule(h) && len(h.Blocks) > 0 && depth < 2 && typeStr(call.Type()) == "int" {
+					// all tests of one call's result constrain the same helper path: intersect first
+					if _, seen := helperAllowed[call]; !seen {
+						helperAllowed[call] = relAll
+						helperCalls = append(helperCalls, call)
+					}
+					helperAllowed[call] &= refine(b.Op, true, a.pos) // allowed signs of the result
+					continue
+				}
+			}
+		}
+		sx, sy := side(x), side(y)
+		if sx != 0 && sy != 0 && sx != sy {
+			for i := range outs {
+				outs[i].r &= refine(b.Op, sx == 'A', a.pos)
+			}
+		}
+	}
+	for _, call := range helperCalls {
+		allowed := helperAllowed[call]
+		var argSide []byte
+		for _, av := range call.Call.Args {
+			argSide = append(argSide, side(p.resolve(strip(av))))
+		}
+		var next []cmpOutcome
+		for _, t := range cmpHelperSummary(c, call.Call.StaticCallee(), argSide, depth+1) {
+			if t.sign&allowed == 0 {
+				continue
+			}
+			for _, o := range outs {
+				n := cmpOutcome{o.r & t.r, o.desc}
+				if n.desc == -1 {
+					n.desc = t.desc
+				}
+				next = append(next, n)
+			}
+		}
+		outs = next
+	}
+	return outs
+}
+
+// cmpHelperSummary enumerates the entry-to-return paths of an int-valued helper
+// whose arguments are on the given sides.
+func cmpHelperSummary(c *Ctx, h *ssa.Function, argSide []byte, depth int) []cmpTriple {
+	c.touch(h)
+	side := func(v ssa.Value) byte {
+		var sa, sb bool
+		for i, p := range h.Params {
+			if i >= len(argSide) || argSide[i] == 0 {
+				continue
+			}
+			p := p
+			if dependsOn(v, func(x ssa.Value) bool { return x == ssa.Value(p) }) {
+				if argSide[i] == 'A' {
+					sa = true
+				} else {
+					sb = true
+				}
+			}
+		}
+		switch {
+		case sa && !sb:
+			return 'A'
+		case sb && !sa:
+			return 'B'
+		}
+		return 0
+	}
+	var out []cmpTriple
+	for _, b := range h.Blocks {
+		if len(b.Instrs) == 0 {
+			continue
+		}
+		ret, ok := b.Instrs[len(b.Instrs)-1].(*ssa.Return)
+		if !ok || len(ret.Results) != 1 {
+			continue
+		}
+		_, complete := pathsTo(h.Blocks[0], b, func(p pathAtoms) bool {
+			outs := evalCmpAtoms(c, p, side, depth)
+			rv := p.resolve(strip(ret.Results[0]))
+			for _, o := range outs {
+				if o.r == 0 {
+					continue
+				}
+				if k, isK := constInt(rv); isK {
+					sg := relEQ
+					if k < 0 {
+						sg = relLT
+					} else if k > 0 {
+						sg = relGT
+					}
+					out = append(out, cmpTriple{o, sg})
+					continue
+				}
+				if call, isC := rv.(*ssa.Call); isC && isCall(call, "z/core.compare") {
+					sx, sy := side(p.resolve(strip(call.Call.Args[0]))), side(p.resolve(strip(call.Call.Args[1])))
+					if sx != 0 && sy != 0 && sx != sy {
+						for _, sg := range []rel{relLT, relEQ, relGT} {
+							rr := sg
+							if sx == 'B' {
+								rr = mirror(sg)
+							}
+							if o.r&rr != 0 {
+								out = append(out, cmpTriple{cmpOutcome{o.r & rr, o.desc}, sg})
+							}
+						}
+						continue
+					}
+				}
+				out = append(out, cmpTriple{o, relAll})
+			}
+			return true
+		})
+		if !complete {
+			out = append(out, cmpTriple{cmpOutcome{relAll, -1}, relAll})
+		}
+	}
+	return out
+}
+
 func ruleC09a(c *Ctx, rule string) {
 	c.describe(rule, "pathstate (ordering domain P({<,=,>}) over the two rows' key values, Descending flag, phi environment for the swap idiom): in orderedRows.Less, for every key branch, 'return true' is reached only when the i-row's key is strictly before the j-row's in the requested direction, 'return false' only when strictly after, and the next key is consulted only on equality; after the loop it returns false")
 	fn := c.need(rule, "(z/core.orderedRows).Less")
@@ -108,43 +291,9 @@ func ruleC09a(c *Ctx, rule string) {
 	}
 	H := loop.header
 	body := H.Succs[0]
-	// evaluate one path
-	evalPath := func(p pathAtoms) (r rel, desc int, decided bool) {
-		r = relAll
-		desc = -1
-		for _, a := range p.atoms {
-			if isFieldLoad(a.v, "z/core.OrderBy.Descending") || isFieldValue(a.v, "Descending") {
-				if a.pos {
-					desc = 1
-				} else {
-					desc = 0
-				}
-				continue
-			}
-			b, ok := a.v.(*ssa.BinOp)
-			if !ok {
-				continue
-			}
-			x, y := p.resolve(strip(b.X)), p.resolve(strip(b.Y))
-			// result of compare(x', y') against 0
-			if call, isC := x.(*ssa.Call); isC && isCall(call, "z/core.compare") {
-				if k, isK := constInt(y); isK && k == 0 {
-					cx, cy := p.resolve(strip(call.Call.Args[0])), p.resolve(strip(call.Call.Args[1]))
-					sx, sy := side(cx), side(cy)
-					if sx != 0 && sy != 0 && sx != sy {
-						r &= refine(b.Op, sx == 'A', a.pos)
-						decided = true
-					}
-				}
-				continue
-			}
-			sx, sy := side(x), side(y)
-			if sx != 0 && sy != 0 && sx != sy {
-				r &= refine(b.Op, sx == 'A', a.pos)
-				decided = true
-			}
-		}
-		return
+	// evaluate one path: the set of (ordering, direction) outcomes compatible with it
+	evalPath := func(p pathAtoms) []cmpOutcome {
+		return evalCmpAtoms(c, p, side, 0)
 	}
 	type finding struct {
 		what string
@@ -156,24 +305,26 @@ func ruleC09a(c *Ctx, rule string) {
 	nPaths, nTrue, nFalse, nCont := 0, 0, 0, 0
 	check := func(kind string, want func(desc int) rel, p pathAtoms, pos token.Pos) {
 		nPaths++
-		r, desc, _ := evalPath(p)
-		if r == 0 {
-			return // infeasible combination of comparisons
-		}
-		w := want(desc)
-		if r&^w != 0 {
-			d := "asc"
-			if desc == 1 {
-				d = "desc"
+		for _, o := range evalPath(p) {
+			r, desc := o.r, o.desc
+			if r == 0 {
+				continue // infeasible combination of comparisons
 			}
-			if desc == -1 {
-				d = "direction untested"
+			w := want(desc)
+			if r&^w != 0 {
+				d := "asc"
+				if desc == 1 {
+					d = "desc"
+				}
+				if desc == -1 {
+					d = "direction untested"
+				}
+				var bs []string
+				for _, b := range p.blocks {
+					bs = append(bs, "b"+itoa(b.Index))
+				}
+				bad = append(bad, kind+" ("+d+") reachable with i-key "+relString(r)+" j-key, allowed "+relString(w)+" at "+c.P.Pos(pos)+" via "+strings.Join(bs, ">"))
 			}
-			var bs []string
-			for _, b := range p.blocks {
-				bs = append(bs, "b"+itoa(b.Index))
-			}
-			bad = append(bad, kind+" ("+d+") reachable with i-key "+relString(r)+" j-key, allowed "+relString(w)+" at "+c.P.Pos(pos)+" via "+strings.Join(bs, ">"))
 		}
 	}
 	for _, b := range fn.Blocks {
